@@ -12,8 +12,8 @@ func init() {
 	registerProperty(&PropertyInfo{
 		ID:         "C13",
 		Title:      "The file-system directory reports success only for durable, exact files",
-		Rules:      []string{"C13.R1", "C13.R2"},
-		Decides:    "for every implementation of index.Directory.Persist in the repository, on EVERY control-flow path: a nil return is preceded, in this order and each on the success edge of the previous step, by open -> WriterTo.WriteTo -> File.Sync -> Close, with no write after the Sync; every non-nil return after a successful open has closed the handle and removed the name; the file is empty when WriteTo starts (O_TRUNC/O_EXCL in the folded open flags or a successful Truncate(0) before WriteTo); the in-memory directory installs the buffer only after WriteTo succeeded.",
+		Rules:      []string{"C13.R1", "C13.R2", "C13.R3"},
+		Decides:    "for every implementation of index.Directory.Persist in the repository, on EVERY control-flow path: a nil return is preceded, in this order and each on the success edge of the previous step, by open -> WriterTo.WriteTo -> File.Sync -> Close, with no write after the Sync; every non-nil return after a successful open has closed the handle and removed the name; the file is empty when WriteTo starts (O_TRUNC/O_EXCL in the folded open flags or a successful Truncate(0) before WriteTo); the in-memory directory installs the buffer only after WriteTo succeeded. unlink/rename sites of the whole module are confined to holders of the file's exclusive lock (the lock helper never unlinks).",
 		NotCovered: "what the operating system does below open/fsync/close/unlink; that WriteTo writes the intended bytes; directory-entry durability (Directory.Sync has no call site and the property does not ask for it).",
 	})
 	registerRule(&RuleInfo{ID: "C13.R1", Title: "Persist: open -> WriteTo -> Sync -> Close on every success path; close+remove on every failure path", Floor: 2, Run: ruleC13R1,
@@ -210,7 +210,7 @@ func flagNames(f uint64) string {
 
 // explorePersist returns the abstract return outcomes of a Persist implementation.
 func (m *persistModel) explore(fn *ssa.Function) ([]RetOutcome, bool) {
-	s := &Summarizer{SiteOutcomes: m.outcomes}
+	s := &Summarizer{SiteOutcomes: m.outcomes, InlineDefers: true}
 	s.OnInstr = func(f *ssa.Function, in ssa.Instruction, st *PState) bool {
 		// the in-memory idiom: installing the buffer into a map field
 		if mu, ok := in.(*ssa.MapUpdate); ok {
